@@ -34,7 +34,7 @@ kf("KF-add-loop-binder", ["C01", "C04"],
 kf("KF-extract-subproc-binder", ["C01", "C04"],
    "extract_subproc moves an allocation / window statement into the sub-procedure although it is used after the block (or extracts a use of a window whose definition stays outside)",
    "LoopIR_scheduling.DoExtractSubproc",
-   {"op": ["extract_subproc0"], "kind": UNB, "cause": RE(r"^unbound-(alloc|window),use:[\w-]+(,block-has-binder)?$")},
+   {"op": ["extract_subproc0"], "kind": UNB, "cause": RE(r"^unbound-(alloc|window),use:[\w-]+(,block-has-binder)?(,alloc-extent-uses-iter)?$")},
    "seed dep/scalar_between: extract_subproc(body[0:2], 'sub_p')")
 kf("KF-specialize-window", ["C01", "C04"],
    "specialize copies a window statement into both branches of the new if, so the window name is unbound after the if",
@@ -44,8 +44,13 @@ kf("KF-specialize-window", ["C01", "C04"],
 kf("KF-reorder-window", ["C01", "C04"],
    "reorder_stmts moves a window statement below a statement that uses the window",
    "new_eff.Check_ReorderStmts (window statements have no effect, so they commute with everything)",
-   {"op": ["reorder_stmts"], "kind": UNB, "cause": RE(r"^unbound-window,use:[\w-]+,block-has-binder$")},
+   {"op": ["reorder_stmts", "std.reorder_stmt_forward", "std.reorder_stmt_backwards"], "kind": UNB, "cause": RE(r"^(unbound-window,use:[\w-]+|unbound-alloc,use:in-window),block-has-binder$")},
    "seed win/basic: reorder_stmts(body[2:4])")
+kf("KF-fission-window", ["C01", "C04"],
+   "fission separates a window statement from the statements that use the window (only allocations are checked by the scope test), leaving the window name unbound in the second half",
+   "LoopIR_scheduling.DoFissionAfterSimple / DoFissionLoops (alloc_check looks at Alloc only, not WindowStmt)",
+   {"op": ["fission", "autofission", "std.fission_into_singles"], "kind": UNB, "cause": RE(r"^unbound-window,use:[\w-]+$")},
+   "seed win/local after specialize(body[2:4], 'n <= 1'): fission(after `w = t[0:n, 1]` in the then-branch)")
 kf("KF-reuse-buffer-scope", ["C01", "C04"],
    "reuse_buffer replaces a buffer by one declared in a different (already closed) scope",
    "LoopIR_scheduling.DoReuseBuffer",
